@@ -8,7 +8,7 @@ records (spec acc_before), and the packed row's intermediates are seeded from it
 import re
 
 from vf.extract import match_brace, ExtractError
-from vf.unit import Unit
+from vf.unit import Unit, unmap_or
 from units.openin import slice_from_through_loop, after_loop_binding
 
 PRELUDE = r'''
@@ -19,7 +19,8 @@ global size_of usize == 8;
 /// base-field and extension-field values, opaque
 #[derive(Clone, Copy, PartialEq, Eq, Structural)] pub struct Fb(pub u64);
 #[derive(Clone, Copy, PartialEq, Eq, Structural)] pub struct Fx { pub id: int }
-pub uninterp spec fn coeffs(x: Fx, d: int) -> Seq<Fb>;          // basis coefficients (length d)
+pub uninterp spec fn coef(x: Fx, i: int) -> Fb;                  // i-th basis coefficient
+pub open spec fn coeffs(x: Fx, d: int) -> Seq<Fb> { Seq::new(d as nat, |i: int| coef(x, i)) }
 pub uninterp spec fn from_coeffs(c: Seq<Fb>) -> Fx;
 pub uninterp spec fn xmul(a: Fx, b: Fx) -> Fx;
 pub uninterp spec fn xadd(a: Fx, b: Fx) -> Fx;
@@ -29,6 +30,9 @@ impl Fx {
     #[verifier::external_body] pub fn add(self, o: Fx) -> (r: Fx) ensures r == xadd(self, o) { unimplemented!() }
     #[verifier::external_body] pub fn sub(self, o: Fx) -> (r: Fx) ensures r == xsub(self, o) { unimplemented!() }
 }
+impl Fx { #[verifier::external_body] pub fn zero() -> (r: Fx) ensures forall|i: int| coef(r, i) == Fb(0) { unimplemented!() } }
+pub trait CheckedSubStub { fn checked_sub_stub(&self, b: usize) -> (r: Option<usize>); }
+impl CheckedSubStub for usize { fn checked_sub_stub(&self, b: usize) -> (r: Option<usize>) ensures r == (if *self >= b { Some((*self - b) as usize) } else { None::<usize> }) { if *self >= b { Some(*self - b) } else { None } } }
 pub open spec fn zeros(d: int) -> Seq<Fb> { Seq::new(d as nat, |i: int| Fb(0)) }
 /// `x.as_basis_coefficients_slice()` copied into dst[start..start+D]
 #[verifier::external_body]
@@ -44,7 +48,7 @@ pub fn copy_out<const D: usize>(prev: &mut [Fb; D], values: &Vec<Fb>, start: usi
 { unimplemented!() }
 /// `ExtF::from_basis_coefficients_slice(&prev[..D]).unwrap()`
 #[verifier::external_body]
-pub fn ext_from_coeffs<const D: usize>(prev: &[Fb; D]) -> (r: Fx) ensures r == from_coeffs(prev@) { unimplemented!() }
+pub fn ext_from_coeffs<const D: usize>(prev: &[Fb; D]) -> (r: Fx) ensures r == from_coeffs(prev@), coeffs(r, D as int) == prev@ { unimplemented!() }
 #[verifier::external_body]
 pub fn zero_array<const D: usize>() -> (r: [Fb; D]) ensures r@ == zeros(D as int) { unimplemented!() }
 
@@ -74,6 +78,13 @@ pub open spec fn acc_before(s: Seq<ScheduleEntry>, t: Seq<[Fx; 4]>, lanes: int, 
 {
     if pos <= 0 || lanes <= 0 { zeros(d) } else if (pos - 1) % lanes != 0 { acc_before(s, t, lanes, d, pos - 1) } else { entry_out(s[pos - 1], t, d) }
 }
+/// a write outside [a, b) leaves values[a..b) as it was
+pub proof fn lemma_region_frame(o: Seq<Fb>, n: Seq<Fb>, a: int, b: int, start: int, dd: int)
+    requires n.len() == o.len(), 0 <= a <= b <= o.len(), (b <= start || start + dd <= a), forall|i: int| 0 <= i < n.len() && !(start <= i < start + dd) ==> #[trigger] n[i] == o[i]
+    ensures n.subrange(a, b) == o.subrange(a, b)
+{ assert(n.subrange(a, b) =~= o.subrange(a, b)); }
+pub proof fn lemma_div_mod_operand(dd: int, q: int, m: int) requires dd > 0, 0 <= m < dd, q >= 0 ensures (q * dd + m) / dd == q, (q * dd + m) % dd == m
+{ assert((q * dd + m) / dd == q && (q * dd + m) % dd == m) by (nonlinear_arith) requires dd > 0, 0 <= m < dd, q >= 0; }
 pub open spec fn sched_wf(s: Seq<ScheduleEntry>, n_ops: int) -> bool {
     forall|p: int| 0 <= p < s.len() ==> match #[trigger] s[p] { ScheduleEntry::Op(i) => (i as int) < n_ops, ScheduleEntry::PackedHorner(f, k) => k >= 1 && f + k <= n_ops, ScheduleEntry::Separator => true }
 }
@@ -89,11 +100,13 @@ def build():
     u.text(PRELUDE)
     A = 'circuit-prover/src/air/alu_air.rs'
     t = u.extract(A, r'impl<F: Field \+ PrimeCharacteristicRing \+ Copy, const D: usize> AluAir<F, D>', 'trace_to_matrix', 'AluAir::trace_to_matrix[scheduled_rows]')
-    slice_from_through_loop(t, 'let mut prev_lane0_out', r'for \(pos, entry\) in schedule\.iter\(\)\.enumerate\(\) \{', '',
+    # the running accumulator is a local of the real code: the contract is attached to it when it exists; the seeding assertion below never names it
+    HAS_ACC = 'let mut prev_lane0_out' in t.body
+    slice_from_through_loop(t, 'let mut prev_lane0_out' if HAS_ACC else 'for (pos, entry) in schedule.iter().enumerate() {', r'for \(pos, entry\) in schedule\.iter\(\)\.enumerate\(\) \{', '',
                             'prefix: lane/row widths, row count, the zeroed value vector; suffix: the unscheduled layout and the padding of the matrix')
-    t.set_sig('R11', 'fn trace_to_matrix(&self, schedule: &Vec<ScheduleEntry>, trace: &AluTrace, values: &mut Vec<Fb>, lanes: usize, lane_width: usize, width: usize)', sliced=True)
+    t.set_sig('R11', 'fn trace_to_matrix(&self, schedule: &Vec<ScheduleEntry>, trace: &AluTrace, values: &mut Vec<Fb>, lanes: usize, lane_width: usize, width: usize, Ghost(nrows): Ghost<int>)', sliced=True)
     # ---- R5/R6/R11 normalisation (each rule general in the names it matches)
-    t.rewrite_re('R6', r'let mut prev_lane0_out = \[F::ZERO; D\];', 'let mut prev_lane0_out: [Fb; D] = zero_array::<D>();', min_count=1)
+    t.rewrite_re('R6', r'let mut prev_lane0_out = \[F::ZERO; D\];', 'let mut prev_lane0_out: [Fb; D] = zero_array::<D>();', min_count=0)
     t.rewrite_re('R6', r'prev_lane0_out = \[F::ZERO; D\];', 'prev_lane0_out = zero_array::<D>();')
     t.rewrite_re('R5', r'for \(pos, entry\) in schedule\.iter\(\)\.enumerate\(\) \{', 'for pos in 0..schedule.len() { let entry = &schedule[pos];', min_count=1)
     t.rewrite_re('R11', r'Self::write_operands\(&mut values,', 'AluAir::<D>::write_operands(values,')
@@ -114,9 +127,77 @@ def build():
     t.body = re.sub(r'values\[([^\]]+?)\.\.([^\]]+?)\]\s*\.copy_from_slice\(([^;]+?)\);', copy_named, t.body, flags=re.S)
     t.rewrites.append(('R6', f'{len(binds)} coefficient-slice bindings and every `values[a..b].copy_from_slice(..)` -> copy_coeffs::<D>(values, a, ext_value)', ''))
     # extension-field arithmetic -> method calls
+    t.rewrite_re('R11', r'\bExtF::ZERO\b', 'Fx::zero()')
+    t.rewrite_re('R11', r'\.checked_sub\(', '.checked_sub_stub(')
+    unmap_or(t)
     t.rewrite_re('R11', r'acc \* b \+ v0\[2\] - v0\[0\]', 'acc.mul(b).add(v0[2]).sub(v0[0])')
     t.rewrite_re('R11', r'o0 \* b \+ v1\[2\] - v1\[0\]', 'o0.mul(b).add(v1[2]).sub(v1[0])')
     t.rewrite_re('R11', r'let b_sq_ext = b \* b;', 'let b_sq_ext = b.mul(b);')
+    GEO = ('1 <= D < 0x100 && lanes == self.lanes && 1 <= lanes < 0x1000 && lane_width == 4 * D && 2 <= self.horner_packed_steps < 0x400 '
+           '&& width == lanes * lane_width + (nint(self.horner_packed_steps as int) + 2 * (self.horner_packed_steps - 1) + 1) * D '
+           '&& 0 <= nrows < 0x100_0000 && schedule@.len() <= nrows * lanes && trace.values@.len() < 0x1_0000_0000_0000')
+    t.requires('geometry', GEO + ' && old(values)@.len() == nrows * width')
+    t.requires('schedule_refers_to_recorded_ops', 'sched_wf(schedule@, trace.values@.len() as int) && forall|p: int| 0 <= p < schedule@.len() ==> (#[trigger] schedule@[p] matches ScheduleEntry::PackedHorner(f, k) ==> k <= self.horner_packed_steps)')
+    t.ensures('no_resize', 'final(values)@.len() == old(values)@.len()')
+    t.at_start('let ghost sc = schedule@; let ghost tv = trace.values@; let ghost d = D as int; let ghost km = self.horner_packed_steps as int;'
+               ' proof { assert(0 <= nint(km) <= km); assert(width < 0x100_0000) by (nonlinear_arith) requires width == lanes * lane_width + (nint(km) + 2 * (km - 1) + 1) * D, 0 <= lanes < 0x1000, lane_width == 4 * D, 0 < D < 0x100, 2 <= km < 0x400, 0 <= nint(km) <= km;'
+               ' assert(nrows * width < 0x1_0000_0000_0000) by (nonlinear_arith) requires 0 <= nrows < 0x100_0000, 0 <= width < 0x100_0000; }')
+    t.attr('#[verifier::loop_isolation(false)]')
+    MAIN, L_OP, L_S, L_T = 'for pos in 0..schedule.len()', 'for operand in 0..3', 'for s in 0..num_int', 'for t in 1..k'
+    t.after('let lane = pos % lanes;', ''' let ghost r0 = row * width; let ghost xs = nint(km); let ghost lw = lane_width as int; let ghost vlen = nrows * width;
+                proof {
+                    assert(row < nrows) by (nonlinear_arith) requires pos < nrows * lanes, row == pos / lanes, lanes > 0, pos >= 0;
+                    assert(r0 + width <= vlen) by (nonlinear_arith) requires r0 == row * width, vlen == nrows * width, 0 <= row < nrows, width >= 0;
+                    assert(r0 >= 0) by (nonlinear_arith) requires r0 == row * width, row >= 0, width >= 0;
+                    assert(lane * lw + lw <= lanes * lw) by (nonlinear_arith) requires 0 <= lane < lanes, lw >= 0;
+                    assert(lane * lw >= 0) by (nonlinear_arith) requires lane >= 0, lw >= 0;
+                    assert(lanes * lw >= 0) by (nonlinear_arith) requires lanes >= 0, lw >= 0;
+                    assert(0 <= xs <= km);
+                    assert(xs * d >= 0 && 2 * (km - 1) * d >= 0) by (nonlinear_arith) requires xs >= 0, d >= 1, km >= 2;
+                    assert(width == lanes * lw + xs * d + 2 * (km - 1) * d + d) by (nonlinear_arith) requires width == lanes * lw + (xs + 2 * (km - 1) + 1) * d;
+                    assert(vlen < 0x1_0000_0000_0000);
+                }''')
+    # ---- Op arm, lane 0: the out operand just written is what copy_out reads back
+    if HAS_ACC:
+        t.before('copy_out::<D>(&mut prev_lane0_out, values, out_start);', '''proof {
+                                    assert forall|m: int| 0 <= m < d implies values@[r0 + 3 * d + m] == coef(tv[*i as int][3], m) by {
+                                        lemma_div_mod_operand(d, 3, m);
+                                        assert((r0 + 3 * d + m) - r0 == 3 * d + m);
+                                        assert(coeffs(tv[*i as int][3], d)[m] == coef(tv[*i as int][3], m));
+                                    }
+                                }''', nth=0)
+    if HAS_ACC:
+        t.after('copy_out::<D>(&mut prev_lane0_out, values, out_start);', ''' proof { assert(prev_lane0_out@ =~= entry_out(sc[pos as int], tv, d)); }''', nth=0)
+    # ---- PackedHorner arm
+    t.after('let mut cursor = base;', ''' proof { assert(sc[pos as int] == ScheduleEntry::PackedHorner(*first_idx, *actual_k)); assert(k >= 1 && *first_idx + k <= tv.len() && k <= km); }''')
+    t.before('copy_coeffs::<D>(values, cursor, trace.values[*first_idx][operand]);', 'proof { let op_ = operand as int; assert(op_ * d + d <= 4 * d) by (nonlinear_arith) requires 0 <= op_ < 3, d >= 1; assert(op_ * d >= 0) by (nonlinear_arith) requires op_ >= 0, d >= 1; }')
+    t.after('cursor += D;', ' proof { let op_ = operand as int; assert((op_ + 1) * d == op_ * d + d) by (nonlinear_arith); }')
+    t.after('let last = first_idx + k - 1;', ''' let ghost v_b = values@; proof { assert(cursor == base + 3 * D); }''')
+    t.before('let extra = row * width + self.lanes * lane_width;', '''let ghost outv = coeffs(tv[last as int][3], d); let ghost o0 = r0 + 3 * d;
+                            proof { assert(base == r0) by (nonlinear_arith) requires base == r0 + lane * lw, lane == 0; assert(values@.subrange(o0, o0 + d) =~= outv); }''')
+    t.before('let b = trace.values[*first_idx][1];', '''proof {
+                                assert(coeffs(prev_ext, d) =~= acc_before(sc, tv, lanes as int, d, pos as int)); // @@A:packed_row_intermediates_are_seeded_from_the_previous_rows_lane0_out
+                            }''')
+    t.before('let off = extra + s * D;', '''let ghost v_s = values@; proof { assert(s * d + d <= xs * d) by (nonlinear_arith) requires 0 <= s < xs, d >= 1; assert(s * d >= 0) by (nonlinear_arith) requires s >= 0, d >= 1; }''')
+    t.after('copy_coeffs::<D>(values, off, acc);', ''' proof { lemma_region_frame(v_s, values@, o0, o0 + d, off as int, d); }''')
+    t.before('let off = ac_base + 2 * (t - 1) * D;', '''let ghost v_t = values@; proof { assert(2 * (t - 1) * d + 2 * d <= 2 * (km - 1) * d) by (nonlinear_arith) requires 1 <= t < k, k <= km, d >= 1; assert(2 * (t - 1) * d >= 0) by (nonlinear_arith) requires t >= 1, d >= 1; }''')
+    t.after('copy_coeffs::<D>(values, off, trace.values[op_t][0]);', ''' let ghost v_t2 = values@; proof { lemma_region_frame(v_t, values@, o0, o0 + d, off as int, d); }''')
+    t.after('copy_coeffs::<D>(values, off + D, trace.values[op_t][2]);', ''' proof { lemma_region_frame(v_t2, values@, o0, o0 + d, off + d, d); }''')
+    t.before('copy_coeffs::<D>(values, b_sq_base, b_sq_ext);', 'let ghost v_q = values@;')
+    t.after('copy_coeffs::<D>(values, b_sq_base, b_sq_ext);', ''' proof { lemma_region_frame(v_q, values@, o0, o0 + d, b_sq_base as int, d); }''')
+    if HAS_ACC:
+        t.after('copy_out::<D>(&mut prev_lane0_out, values, out_start);', ''' proof { assert(prev_lane0_out@ =~= entry_out(sc[pos as int], tv, d)); }''', nth=1)
+    if HAS_ACC:
+      t.at_loop_end(MAIN, '''proof {
+                    assert(acc_before(sc, tv, lanes as int, d, pos + 1) == (if (pos as int) % (lanes as int) != 0 { acc_before(sc, tv, lanes as int, d, pos as int) } else { entry_out(sc[pos as int], tv, d) }));
+                    assert(prev_lane0_out@ =~= acc_before(sc, tv, lanes as int, d, pos + 1)); // @@A:accumulator_is_the_previous_rows_lane0_out_zero_after_a_separator
+                }''')
+    t.loop(L_T, invariants=[('geometry', 'values@.len() == vlen && values@.subrange(o0, o0 + d) == outv')])
+    t.loop(L_S, invariants=[('geometry', 'values@.len() == vlen && values@.subrange(o0, o0 + d) == outv && step <= 2 * s')])
+    t.loop(L_OP, invariants=[('geometry', 'values@.len() == vlen && cursor == base + operand * D')])
+    t.loop(MAIN, invariants=[
+        ('geometry', 'values@.len() == nrows * width'),
+    ] + ([('accumulator_is_the_previous_rows_lane0_out', 'prev_lane0_out@ == acc_before(sc, tv, lanes as int, d, pos as int)')] if HAS_ACC else []))
     u.text('verus! {\nimpl<const D: usize> AluAir<D> {')
     u.emit(t, vis='pub')
     u.text('}\n}')
